@@ -8,6 +8,7 @@ package main
 import (
 	"fmt"
 	"math/rand"
+	"strings"
 	"sync"
 	"sync/atomic"
 	"time"
@@ -156,6 +157,7 @@ func runConcRound(tw *traceWriter, r *rand.Rand, round int, servers, nops int) {
 		}
 	}
 	tw.emit(map[string]interface{}{"e": "chist", "round": round, "router": router, "ops": ops, "servers": servers})
+	tw.flush()
 	// the container under test
 	c := newRegContainer(router)
 	live := map[string]*restful.WebService{}
@@ -330,6 +332,9 @@ func runConcDuo(tw *traceWriter, r *rand.Rand, round, servers int) {
 		final = applyConcOp(final, op)
 	}
 	tw.emit(map[string]interface{}{"e": "chist", "round": round, "router": router, "ops": append(append([][]string{}, opsA...), opsB...), "servers": servers, "duo": true})
+	// the library exits the process when a root path is added twice; the histories never do that, so an
+	// exit means the container no longer holds what the histories say: flush the intent first
+	tw.flush()
 	var done int32
 	var wg, mw sync.WaitGroup
 	for g := 0; g < servers; g++ {
@@ -343,11 +348,27 @@ func runConcDuo(tw *traceWriter, r *rand.Rand, round, servers int) {
 		}(g)
 	}
 	panics := make([]string, 2)
+	var ownMu sync.Mutex
+	own := [][3]string{}
 	for mi, ops := range [][][]string{opsA, opsB} {
 		mw.Add(1)
 		go func(mi int, ops [][]string) {
 			defer mw.Done()
+			present := map[string]bool{}
 			for _, op := range ops {
+				if op[0] == "add" || op[0] == "remove" {
+					// only this goroutine changes this service: it must still be as this goroutine left it
+					p := strings.NewReplacer("{x}", "7", "{y}", "7").Replace(op[1]) + "/x"
+					got, _ := regProbe(c, "D", p)
+					want := "404"
+					if present[op[1]] {
+						want = "200|ws:" + op[1] + ":/x||"
+					}
+					ownMu.Lock()
+					own = append(own, [3]string{"D" + p, norm404(got), want})
+					ownMu.Unlock()
+					present[op[1]] = op[0] == "add"
+				}
 				pv := safely(func() {
 					switch op[0] {
 					case "add":
@@ -393,6 +414,9 @@ func runConcDuo(tw *traceWriter, r *rand.Rand, round, servers int) {
 		if pv != "" {
 			tw.emit(map[string]interface{}{"e": "cpanic", "round": round, "pv": pv})
 		}
+	}
+	for _, o := range own {
+		tw.emit(map[string]interface{}{"e": "cfinal", "key": o[0], "obs": o[1], "want": o[2], "own": true})
 	}
 	fc := final.fresh(router)
 	for i := 0; i < 30; i++ {
